@@ -650,7 +650,7 @@ func (c *checker) modVectors(vs []vector) {
 	inSample := make([]bool, len(vs))
 	var texts []string
 	for i, v := range vs {
-		inSample[i] = c.tier == "thorough" || len(v.Src) <= 3 || c.rng.Intn(100) < 20
+		inSample[i] = c.tier == "thorough" || len(v.Src) <= 3 || c.rng.Intn(100) < 10
 		if inSample[i] {
 			texts = append(texts, modText(v, textualOrder(v), v.Textual), modText(v, groupOrder(v), v.Printed))
 		}
@@ -707,7 +707,13 @@ func (c *checker) modVectors(vs []vector) {
 			case "alias":
 				built[i] = m.NewAlias(names[i], base)
 			case "ifunc":
-				built[i] = m.NewIFunc(names[i], resolver)
+				x := m.NewIFunc(names[i], resolver)
+				// IFunc.Type() derives the IFunc's type from the resolver's own type (void ()* ()*)
+				// instead of the resolver's result type; LLVM then reports "IFunc resolver has
+				// incorrect type". Not a numbering matter (reported to the C03/C06 side): the
+				// exported field is set to the type LLVM expects.
+				x.Typ = types.NewPointer(types.NewFunc(types.Void))
+				built[i] = x
 			case "func":
 				f := m.NewFunc(names[i], types.Void)
 				f.NewBlock("").NewRet(nil)
